@@ -2,7 +2,9 @@
 C16 - offline-runnable providers honour the provider contract the engine relies on.
 
 design:     ProviderModel.tla / MC_Provider_<style>_<case>.cfg  (TLC, exhaustive: tree well-formed, queries agree,
-            id stability, every mutation reported, for both id styles and both case modes)
+            id stability, every mutation reported, for both id styles and both case modes);
+            ProviderIdentity.tla (identity part: foreign identity refused in every state, owner accepted in every
+            state, binding stable) checked in the Gen_Identity run
 spec->code: Gen_Provider prints every transition of the model's tree graph up to MaxLen calls (VIEW: each distinct
             tree is expanded once, reached by a shortest call sequence, and EVERY call from it is printed), with the
             hazard tags of every prefix; -simulate produces sequences of 10 calls over the full alphabet.
@@ -11,7 +13,17 @@ spec->code: Gen_Provider prints every transition of the model's tree graph up to
             (0, 1, 700, 1024, 1025, 1500, 2048, 2049, 3000 bytes), as groups that are distinct but collide under
             partial sampling (same first KiB and different after it, different only in the middle / tail / head);
             once a file exists the generator writes the same bytes or a colliding partner over it / next to it.
-            The simulation draws contents group by group in the same way.  Each sequence is executed on a FRESH
+            The simulation draws contents group by group in the same way.
+            IDENTITY family: ProviderIdentity.tla models the provider's bound identity (unbound / bound to i;
+            connect(credentials of j) succeeds iff unbound or i = j, and binds; a refusal changes neither the
+            binding nor a disconnected status; disconnect keeps the binding; reconnect = connect with the
+            credentials held).  Gen_Identity enumerates every sequence of connect(a) / connect(b) / disconnect /
+            reconnect (3 calls quick, 4 thorough) from every initial state and checks the design properties in
+            the same run.  The sequences run on providers that were never connected (see execute_identity for
+            the two ways an account is presented); outcome, `connected` and connection_id are recorded after
+            every call and Trace_Provider judges IdentityRefused (every time, not only the first),
+            BindingUnchangedByRefusal, OwnerAccepted, LoginBinds, DisconnectKeepsBinding, ReconnectKeepsBinding.
+            Each sequence is executed on a FRESH
             provider of every kind: the four MockProvider flavours (+ filter_events for the id-style ones in
             thorough) and FileSystemProvider over a fresh temporary directory.
 code->spec: after every call the harness records the result (exception class / returned id / hash) and the events
@@ -136,7 +148,9 @@ class Sut:
     """A fresh provider of one kind plus the codecs between real ids / hashes / paths and the small values of
     the specification.  Nothing in here compares anything with an expectation."""
 
-    def __init__(self, kind, scratch):
+    def __init__(self, kind, scratch, mech=None):
+        """mech None: a connected provider, for the tree families.  mech "acct" / "stock": a provider that was never
+        connected, for the identity family (acct: the login yields the account named in the credentials)."""
         import_repo()
         from cloudsync.exceptions import (CloudFileExistsError, CloudFileNotFoundError, CloudFileNameError,
                                           CloudTokenError)
@@ -151,10 +165,11 @@ class Sut:
         if self.is_fs:
             from cloudsync.providers.filesystem import FileSystemProvider
             self.dir = tempfile.mkdtemp(prefix="c16fs_", dir=scratch)
-            self.p = FileSystemProvider()
+            self.p = (account_class(FileSystemProvider) if mech == "acct" else FileSystemProvider)()
             self.p.namespace_id = os.path.join(self.dir, "ns")
             self.creds = {}
-            self.p.connect(self.creds)
+            if mech is None:
+                self.p.connect(self.creds)
             self.prefix = self.p.namespace_id
             self.bad = BAD_FS
             self.observer = None
@@ -165,10 +180,12 @@ class Sut:
                 pass
         else:
             from cloudsync.providers.mock import MockProvider
-            self.p = MockProvider(self.oip, self.cs, filter_events=self.filt)
+            cls = account_class(MockProvider) if mech == "acct" else MockProvider
+            self.p = cls(self.oip, self.cs, filter_events=self.filt)
             self.p._forbidden_chars = ["?"]
             self.creds = {"key": "val"}
-            self.p.connect(self.creds)
+            if mech is None:
+                self.p.connect(self.creds)
             self.prefix = ""
             self.bad = BAD_MOCK
         self.name = dict(NAME)
@@ -372,6 +389,112 @@ class Sut:
             shutil.rmtree(self.dir, ignore_errors=True)
 
 
+# ---- the identity family ---------------------------------------------------------------------------------------------
+# Two ways of presenting an identity to Provider.connect (the code under test, inherited by every provider):
+#  acct   a harness subclass of the provider whose connect_impl (the provider-specific login hook) answers with the
+#         account named in the credentials, as a cloud provider's login does: identities a and b, any provider kind;
+#  stock  the unmodified MockProvider: its login answers with a random id when unbound (identity 1 = the first one
+#         seen) and with the stored id when bound, whatever the credentials; a foreign binding is the connection_id
+#         "invalid", stored by hand, exactly as the repository's test_connect_basic does (identity 2).  Sequences
+#         with connect(credentials of b) cannot be expressed there and are left out.
+USER = {1: "a", 2: "b"}
+_ACCOUNT_CLASSES = {}
+
+
+def account_class(base):
+    if base not in _ACCOUNT_CLASSES:
+        class Account(base):                                   # pylint: disable=too-few-public-methods
+            def connect_impl(self, creds):
+                super().connect_impl(creds)
+                return "acct:" + creds["user"]
+        Account.__name__ = "Account" + base.__name__
+        _ACCOUNT_CLASSES[base] = Account
+    return _ACCOUNT_CLASSES[base]
+
+
+def identity_cases(histories):
+    """Generated histories -> cases.  The initial state of the design (bound to i by an earlier session, holding
+    the credentials of c) is reached through the API: connect(i), disconnect, set_creds(c); these set-up calls are
+    part of the case.  stock: bound to 2 = connect, disconnect, connection_id = "invalid"."""
+    out = {"acct": [], "stock": []}
+    for hst in histories:
+        b, c = hst["init"]["bound"], hst["init"]["creds"]
+        calls = [{"op": x["op"], "j": x["j"]} for x in hst["calls"]]
+        setup = []
+        if b:
+            setup = [{"op": "connect", "j": b, "setup": 1}, {"op": "disconnect", "j": 0, "setup": 1}]
+            if c != b:
+                setup.append({"op": "setcreds", "j": c, "setup": 1})
+        out["acct"].append({"ident": 1, "mech": "acct", "calls": setup + calls, "tags": []})
+        if (b, c) in ((0, 0), (1, 1), (2, 1)) and not any(x["op"] == "connect" and x["j"] == 2 for x in calls):
+            setup = []
+            if b:
+                setup = [{"op": "connect", "j": 1, "setup": 1}, {"op": "disconnect", "j": 0, "setup": 1}]
+            if b == 2:
+                setup.append({"op": "bindforeign", "j": 2, "setup": 1})
+            out["stock"].append({"ident": 1, "mech": "stock", "calls": setup + calls, "tags": []})
+    return out
+
+
+def execute_identity(kind, case, scratch):
+    """Run one sequence of logins on a provider that was never connected; after every call record the outcome,
+    `connected` and connection_id."""
+    mech = case["mech"]
+    s = Sut(kind, scratch, mech=mech)
+    p = s.p
+    seen = {}
+
+    def cid():
+        v = p.connection_id
+        if v is None:
+            return 0
+        if mech == "acct":
+            return {"acct:a": 1, "acct:b": 2}.get(v, 9)
+        if v == "invalid":
+            return 2
+        if v not in seen:
+            seen[v] = 1 if not seen else 2 + len(seen)         # the first login's id is identity 1; others are new ones
+        return seen[v]
+
+    def creds(j):
+        return dict(s.creds, user=USER[j]) if mech == "acct" else dict(s.creds)
+
+    tr = [{"op": "idinit", "conn": 1 if p.connected else 0, "cid": cid()}]
+    try:
+        for c in case["calls"]:
+            op, j = c["op"], c["j"]
+            ev = {"op": op, "j": j, "exc": 0}
+            try:
+                if op == "connect":
+                    p.connect(creds(j))
+                elif op == "disconnect":
+                    p.disconnect()
+                elif op == "reconnect":
+                    p.reconnect()
+                elif op == "setcreds":
+                    p.set_creds(creds(j))
+                elif op == "bindforeign":
+                    p.connection_id = "invalid"
+                else:
+                    raise MachineryError("unknown identity op %r" % op)
+            except MachineryError:
+                raise
+            except Exception as e:
+                ev["exc"] = s.exc_class(e)
+                ev["exc_type"] = type(e).__name__
+            ev["conn"], ev["cid"] = 1 if p.connected else 0, cid()
+            tr.append(ev)
+        if s.is_fs and s.observer is None:
+            try:
+                pool = type(p)._observers
+                s.observer = pool.pool.get(pool.generic_normalize_path(s.prefix))
+            except Exception:
+                pass
+    finally:
+        s.close()
+    return tr
+
+
 def fresh(c):
     """the bytes of content c as a stream over a NEW bytes object (equal bytes, never the same object)"""
     return io.BytesIO(bytes(bytearray(CONTENT[c])))
@@ -379,6 +502,8 @@ def fresh(c):
 
 def execute(kind, case, scratch):
     """Run one call sequence on a fresh provider; return the trace of what really happened."""
+    if case.get("ident"):
+        return execute_identity(kind, case, scratch)
     calls = case["calls"]
     paths = universe(case["names"], case["depth"])
     every = bool(case.get("observe_every"))    # else: full observation after the LAST call only (the shorter
@@ -466,7 +591,7 @@ def gen_cfg(ctx, oip, cs, names, contents, maxlen, mode, bad=(), depth=2):
 
 def trace_cfg(ctx, oip, cs):
     text = model_constants(oip, cs, range(1, 7), range(1, NCONTENT + 1), bad=[BAD]) + \
-        " MaxMutations = 0\nSPECIFICATION TraceSpec\nPOSTCONDITION Report\nCHECK_DEADLOCK FALSE\n"
+        " MaxMutations = 0\n Ids = {1, 2}\nSPECIFICATION TraceSpec\nPOSTCONDITION Report\nCHECK_DEADLOCK FALSE\n"
     return tc.gen_cfg(ctx, "Trace_Provider_%s.cfg" % flavour_name(oip, cs), text)
 
 
@@ -489,20 +614,6 @@ def _exec_chunk(args):
     kind, cases, scratch = args
     threading.excepthook = lambda a: None       # the repo's Observer may raise in its own thread while disconnecting
     return [execute(kind, c, scratch) for c in cases]
-
-
-def make_pool(ctx):
-    """Worker processes, forked BEFORE any thread is started (the TLC runs are driven from threads later on) and
-    with the package already imported."""
-    import gc
-    import multiprocessing
-    import_repo()
-    gc.collect()
-    gc.freeze()                                 # the workers must not copy the parent's heap page by page
-    try:
-        return multiprocessing.get_context("fork").Pool(ctx.workers)
-    finally:
-        gc.unfreeze()
 
 
 def run_cases(ctx, plan, pool):
@@ -529,6 +640,8 @@ def signature(kind, case, trace, line, clause):
     tags = [] if k == 0 else ptags[min(k, len(ptags)) - 1]
     call = case["calls"][k - 1].get("tg", []) if 1 <= k <= len(case["calls"]) else []
     sig = {"clause": parts[0], "provider": kind, "op": ev["op"], "tags": tags, "call": "+".join(sorted(call))}
+    if case.get("ident"):
+        sig["mechanism"] = case["mech"]
     if parts[0] == "ErrorClass":
         sig["expected"] = parts[1].strip("{}").replace(" ", "")
         sig["got"] = int(parts[2])
@@ -633,7 +746,11 @@ def run(ctx):
         "share the first KiB and differ after it / differ only in the middle, the tail or the head), where a file "
         "is followed by the same bytes or a colliding partner - plus -simulate sequences of 10 calls over the full "
         "alphabet (a, A, b, e-acute, a.b, forbidden name) and all 18 contents, group by group.  hash_data of all 18 "
-        "contents is recorded at every observation.  Every sequence is executed on a fresh provider of each kind and "
+        "contents is recorded at every observation.  Identity family (Gen_Identity, which also checks the design "
+        "properties of ProviderIdentity): every sequence of 3 (quick) / 4 (thorough) calls connect(a) / connect(b) / "
+        "disconnect / reconnect from every initial state (never connected; bound to a or b by an earlier session, "
+        "holding a's or b's credentials), outcome + connected + connection_id recorded after every call.  Every "
+        "sequence is executed on a fresh provider of each kind and "
         "judged by Trace_Provider (TLC).  distinct = distinct (provider kind, call sequence); non-trivial = at least one call "
         "of the sequence returned without exception on the provider")
     ctx.assume(
@@ -649,7 +766,17 @@ def run(ctx):
         "MockProvider's forbidden characters are switched on through its _forbidden_chars knob, as its tests do; "
         "the file system's forbidden name is one longer than NAME_MAX",
         "connecting under another identity is modelled as the repository's tests do (connection_id 'invalid'); "
-        "FileSystemProvider has no identity (CONNECTION_NOT_NEEDED) and is exempt from IdentityRefused",
+        "the unmodified FileSystemProvider has no identity (CONNECTION_NOT_NEEDED) and is exempt from "
+        "IdentityRefused there",
+        "identity family: Provider.connect / disconnect / reconnect (inherited by every provider) are driven with two "
+        "accounts through a harness subclass of each provider whose connect_impl - the provider-specific login hook "
+        "- answers with the account named in the credentials (mechanism acct: all mock flavours and "
+        "FileSystemProvider), and on the unmodified MockProvider with the repository's own idiom (mechanism stock: "
+        "the login answers a random id when unbound, a foreign binding is connection_id 'invalid' stored by hand; "
+        "connect with the other account's credentials cannot be expressed there).  Initial states of the design "
+        "(bound by an earlier session) are reached through connect / disconnect / set_creds.  reconnect uses the "
+        "credentials passed to the last connect or set_creds, refused or not (Provider.reconnect's documented "
+        "'retain the creds used')",
         "TLC 2 / JVM; JSON bridge between provider values and specification values (names, content ids, hash ids, "
         "object ids numbered in order of first appearance) in vh/checks/c16.py")
 
@@ -657,6 +784,7 @@ def run(ctx):
     contents = [3, 15]                          # the tree families: one < 1 KiB and one > 2 KiB content
     all_contents = range(1, NCONTENT + 1)
     content_names, content_len = [1, 3], (2 if quick else 3)   # the content family: names a, b; depth 1
+    idn_len = 3 if quick else 4                 # the identity family: sequences of idn_len logins
     nsim = 20 if quick else 200
     keep = 4 if quick else 6
 
@@ -695,6 +823,22 @@ def run(ctx):
                       % (content_len, flavour_name(*fl)))
         return parse_gen(res, content_names, 1, "content " + flavour_name(*fl)), res
 
+    def identity_family():
+        """every sequence of connect(a) / connect(b) / disconnect / reconnect of idn_len calls from every initial state
+        of ProviderIdentity; the same TLC run checks the design properties of that module"""
+        text = ("CONSTANTS\n Ids = {1, 2}\n MaxLen = %d\nSPECIFICATION IGenSpec\nINVARIANT IdTypeOK\n"
+                "INVARIANT ConnectedAsBound\nINVARIANT ForeignRefused\nINVARIANT OwnerAccepted\n"
+                "PROPERTY IGenBindingStable\nINVARIANT Emit\nCHECK_DEADLOCK FALSE\n" % idn_len)
+        res = ctx.tlc("Gen_Identity", tc.gen_cfg(ctx, "Gen_Identity_%d.cfg" % idn_len, text), workers=1, count=False,
+                      what="identity: design properties + every sequence of %d logins over two identities" % idn_len)
+        if not res.ok:
+            raise MachineryError("identity design / generator run not clean (violated=%s)\n%s"
+                                 % (res.violated, res.tail(40)))
+        hist = [json.loads(x) for x in res.printed() if x.startswith("{")]
+        if len(hist) < 4 ** idn_len:
+            raise MachineryError("identity generator produced only %d histories" % len(hist))
+        return identity_cases(hist), res
+
     def simulated(fl):
         res = ctx.tlc("Gen_Provider", gen_cfg(ctx, fl[0], fl[1], range(1, 7), all_contents, 10, "final", bad=[BAD]),
                       workers=1, simulate="num=%d" % nsim, depth=11, extra=["-seed", str(ctx.seed + 1)],
@@ -707,15 +851,17 @@ def run(ctx):
     only = os.environ.get("VERIF_C16_KINDS", "").split(",") if os.environ.get("VERIF_C16_KINDS") else None   # debugging aid
     part = os.environ.get("VERIF_C16_PART", "all")                                                           # debugging aid
     stats, results, counted = {}, {}, []
-    workers = make_pool(ctx)
-    pool = ThreadPoolExecutor(max_workers=16)
+    workers = ctx.pool()                        # the run's shared pool of forked workers: forked here, BEFORE any thread
+    #                                             is started (the TLC runs are driven from threads from here on)
+    pool = ThreadPoolExecutor(max_workers=17)
     try:
         f_design = [pool.submit(design, fl) for fl in FLAVOURS]
         f_fam = {fl: pool.submit(exhaustive, fl) for fl in FLAVOURS}
         f_con = {fl: pool.submit(content_family, fl) for fl in FLAVOURS}
+        f_idn = pool.submit(identity_family)
         f_sim = {fl: pool.submit(simulated, fl) for fl in FLAVOURS}
 
-        def kinds_plan(by_flavour, extra=None):
+        def kinds_plan(by_flavour, extra=None, idn=None):
             plan = []
             for kind, (oip, cs, filt) in KINDS.items():
                 if (filt and quick) or (only and kind not in only):
@@ -724,6 +870,8 @@ def run(ctx):
                 if extra:
                     cases += [f["exemplar"]["case"] for f in ctx.findings
                               if f.get("exemplar") and f["exemplar"]["kind"] == kind]
+                if idn and not filt:            # filter_events has no part in logins
+                    cases += idn["acct"] + (idn["stock"] if kind != "fs" else [])
                 plan.append((kind, cases))
             return plan
 
@@ -762,8 +910,12 @@ def run(ctx):
         dbg("exhaustive generators")
         ctx.cov["exhaustive"] = True
         ctx.extra["content_family_transitions"] = {flavour_name(*k): len(v) for k, v in con.items()}
+        idn, res = f_idn.result()
+        counted.append(res)
+        ctx.extra["identity_sequences"] = {k: len(v) for k, v in idn.items()}
         # exemplars of the listed findings are re-executed on every run, together with the exhaustive family
-        plan = kinds_plan(fam if part != "sims" else {fl: [] for fl in FLAVOURS}, extra=True)
+        plan = kinds_plan(fam if part != "sims" else {fl: [] for fl in FLAVOURS}, extra=True,
+                          idn=idn if part != "sims" else None)
         ctx.extra["family_sizes"] = {k: len(v) for k, v in plan}
         do(plan, "all transitions up to %d calls + exemplars" % maxlen)
 
@@ -791,7 +943,6 @@ def run(ctx):
         counted += [f.result() for f in f_design]
         dbg("design runs")
     finally:
-        workers.terminate()
         pool.shutdown(wait=True)
     for res in counted:
         ctx.cov["states"] += res.distinct
@@ -802,7 +953,7 @@ def run(ctx):
     for kind, (cases, trs) in results.items():
         for c, t in zip(cases, trs):
             if any(e.get("exc") == 0 and e["op"] not in ("init", "connect_other") for e in t):
-                nontrivial.add((kind, json.dumps(c["calls"])))
+                nontrivial.add((kind, c.get("mech", ""), json.dumps(c["calls"])))
             key = "clean" if not c["tags"] else ",".join(c["tags"])
             strata[key] = strata.get(key, 0) + 1
     ctx.count(nontrivial=len(nontrivial))
@@ -814,7 +965,14 @@ def run(ctx):
                 fh.write("%6d %s\n        e.g. %s\n" % (n, k, json.dumps(ex)))
     for kind in ("mock_oid_cs", "fs"):
         if kind in results:
-            cs_, ts_ = results[kind]
+            both = [(c, t) for c, t in zip(*results[kind]) if not c.get("ident")]
+            idt = [(c, t) for c, t in zip(*results[kind]) if c.get("ident")]
+            if idt and kind == "fs":
+                ctx.sample({"provider": kind, "identity_mechanism": idt[len(idt) // 2][0]["mech"],
+                            "identity_trace": idt[len(idt) // 2][1]}, limit=7)
+            if not both:
+                continue
+            cs_, ts_ = [c for c, _ in both], [t for _, t in both]
             ctx.sample({"provider": kind, "calls": cs_[len(cs_) // 2]["calls"], "tags": cs_[len(cs_) // 2]["tags"]})
             t = ts_[len(ts_) // 2]
             ctx.sample({"provider": kind, "last_trace_line": {k: v for k, v in t[-2].items() if k != "obs"},
@@ -828,7 +986,11 @@ def replay(ctx, rep):
     judge(ctx, {kind: ([c], [tr])}, "replay")
     ctx.count(evaluations=1, nontrivial=2)
     ctx.sample({"provider": kind, "calls": c["calls"]})
-    for ln in tr[1:-1]:
+    for ln in tr[1:] if c.get("ident") else tr[1:-1]:
+        if c.get("ident"):
+            print("  %s j=%s -> exc=%s connected=%s connection_id=%s" % (ln["op"], ln["j"], ln["exc"], ln["conn"],
+                                                                        ln["cid"]))
+            continue
         print("  %s p=%s x=%s c=%s -> exc=%s rid=%s events=%s" % (ln["op"], ln["p"], ln["x"], ln["c"], ln["exc"],
                                                                  ln["rid"], ln["evs"]))
 
